@@ -136,6 +136,16 @@ fn main() {
     let templates = ["{N}", "{N}.0", "1.{N}", "1.0.{N}.1", "{N}!1.0", "1.0a{N}", "1.0rc.{N}", "1.0.post{N}", "1.0-{N}", "1.0.dev{N}", "1.0+{N}", "1.0+a.{N}", "1.0+{N}.a",
         "{N}!{N}.{N}a{N}.post{N}.dev{N}+{N}"];
     let mut sd = Stats::default();
+    // long inputs (a parser that looks at a bounded prefix, or echoes a shortened copy): lengths around 2^8, 2^10, 2^12, 2^16
+    for n in [120usize, 126, 127, 128, 250, 254, 255, 256, 257, 300, 1023, 1024, 1025, 4096] {
+        for x in [format!("1.0+{}", "a".repeat(n)), format!("1.0+{}!", "a".repeat(n)), format!("1.0+{}.B-c_01", "a".repeat(n)), format!("1{}", ".2".repeat(n / 2)), format!("1{}.", ".2".repeat(n / 2)),
+            format!("1.0.dev{}7", "0".repeat(n)), format!("1.0a{}1.post2", "0".repeat(n)), format!("{}1!2.0", "0".repeat(n)), format!("1.0+{}", "a.0".repeat(n / 3)), format!("1.0+{}..b", "a".repeat(n)),
+            format!("1.0rc1{}", "-".repeat(n)), format!("v{}", "1.".repeat(n / 2) + "0")] {
+            sd.inc("long_inputs");
+            let v = judge(&x, n <= 4096, &mut sd);
+            report(&ctx, &x, "long", v, &mut sd);
+        }
+    }
     for t in templates {
         for n in nums {
             let x = t.replace("{N}", n);
